@@ -10,7 +10,7 @@ DIMS = {
     "width": ["em", 0, "2em", 100, 1275],
     "metrics": [[1024, 950, -250], [1000, 800, -200], [2048, 1900, -500], [100, 100, 0], [1000, 1000, 0], [16384, 15000, -1000]],
     "fmt": ["cbdt", "sbix"],
-    "order": ["consecutive", "one_gap", "two_gaps"],
+    "order": ["consecutive", "one_gap", "two_gaps", "coloured_notdef"],
     "nglyphs": [2, 1, 3],
     # the configured bitmap_resolution: equal to the PNG's height (what the pipeline's resvg -h gives), or not
     # (PNGs handed to write_font / _generate_color_font directly): placement is by the image's own height
@@ -24,6 +24,9 @@ def sequences(order, n):
     """codepoint sequences whose glyph order has the requested gaps between colour glyphs"""
     if order == "consecutive":
         return [(0xE000,), (0xE001,), (0xE002,)][:n]
+    if order == "coloured_notdef":
+        # a source that draws .notdef (given through the glyph map): colour glyph ids 0, 2, 3, ... with the blank space glyph between
+        return [()] + [(0xE000,), (0xE001,), (0xE002,)][:n]
     if order == "one_gap":
         # a sequence-only codepoint gets a blank glyph in between
         return [(0xE000,), (0xE001, 0x200D, 0xE005), (0xE002,)][:n]
@@ -63,7 +66,12 @@ def execute(dev):
     # is an error, not a wrong font, and the statement does not forbid it
     may_raise = may_raise or (fmt == "sbix" and (exp_top > 126.5 or exp_top < -129.5 or h > 254))
     try:
-        cfg, font, data = inproc.build_direct([(sq, None) for sq in seqs], over, bitmaps=[PNG(b) for b in images])
+        names = None
+        if a["order"] == "coloured_notdef":
+            from nanoemoji.glyph import glyph_name
+
+            names = [".notdef" if sq == () else glyph_name(sq) for sq in seqs]
+        cfg, font, data = inproc.build_direct([(sq, None) for sq in seqs], over, bitmaps=[PNG(b) for b in images], names=names)
     except Exception as e:
         if may_raise:
             return [{"status": "rejected", "clause": "C14.build", "fp": f"rejected:{fmt}:{type(e).__name__}"}]
@@ -76,7 +84,7 @@ def execute(dev):
     square = w == h
     proportional = width == 0
     for i, sq in enumerate(seqs):
-        names = shaper.shape(font, sq)
+        names = [".notdef"] if sq == () else shaper.shape(font, sq)
         if len(names) != 1:
             out.append(bad("C14.reachable", f"{sq} -> {names}"))
             continue
